@@ -476,6 +476,11 @@ func (r *Reconciler) Reconcile(ctx context.Context, req reconcile.Request) (reco
 
 	// Copy any custom status conditions from the XR to the claim.
 	for _, cType := range xr.GetClaimConditionTypes() {
+		// System conditions (Ready, Synced, Healthy) are owned by this
+		// reconciler. Never let the XR's claimConditionTypes overwrite them.
+		if xpv1.IsSystemConditionType(cType) {
+			continue
+		}
 		c := xr.GetCondition(cType)
 		cm.SetConditions(c)
 	}
